@@ -87,6 +87,7 @@ def step (s : State) (toks : List String) : State × String :=
         | none => "-"
         | some b => ",".intercalate (b.map showMsg))
     | _, _, _ => (s, "bad-op")
+  | ["rereg"] => (s, "ok")   -- an equal copy of the tree is registered again: nothing changes
   | _ => (s, "bad-op")
 
 end Drv
